@@ -24,4 +24,75 @@ package keeper
 //@   requires len(addrBytes(a.Owner)) == 20 && len(addrBytes(o)) == 20
 //@   ensures hasPrefix(certKeyOf(a), certPrefixOf(o)) <==> addrBytes(a.Owner) == addrBytes(o)
 
+// ---- C17 ----------------------------------------------------------------------
+// the serial is recovered from every key of the registered layout, for all non-negative serials,
+// and the decoder never panics on such keys (listings never fail)
+//@ func certificateSerialFromKey
+//@   theory strings
+//@   uses def:certKeyOf
+//@   nopanic
+//@   requires exists id: types.CertID :: key == certKeyOf(id) && len(addrBytes(id.Owner)) == 20 && id.Serial >= 0
+//@   ensures forall id: types.CertID :: key == certKeyOf(id) && len(addrBytes(id.Owner)) == 20 && id.Serial >= 0 ==> result == id.Serial
+
+//@ spec bigStr(n: int): str
+//@ extern "math/big".(*Int).String(x)
+//@   pure
+//@   ensures result == bigStr(*x)
+
+// representation invariant of the certificate store: every key has the registered layout
+//@ spec opaque certRI(has: map[str]bool): bool = forall key: str :: has[key] ==>
+//@        (exists id: types.CertID :: key == certKeyOf(id) && len(addrBytes(id.Owner)) == 20 && id.Serial >= 0)
+
+//@ func (keeper).mustUnmarshal
+//@   nopanic
+//@   requires exists id: types.CertID :: key == certKeyOf(id) && len(addrBytes(id.Owner)) == 20 && id.Serial >= 0
+//@   ensures result.Certificate == decode(types.Certificate, val)
+//@   ensures forall id: types.CertID :: key == certKeyOf(id) && len(addrBytes(id.Owner)) == 20 && id.Serial >= 0 ==> result.Serial == bigStr(id.Serial)
+
+//@ func filterCertByState
+//@   ensures result <==> (state == types.CertificateStateInvalid || cert == state)
+
+// parsing / validation of the PEM material is assumed (A-X509): on success the certificate's subject
+// common name is the owner's address and the serial number is non-negative
+//@ spec certSerial(crt: str): int
+//@ spec certOwner(crt: str): str
+//@ extern types.ParseAndValidateCertificate(owner, crt, pub)
+//@   ensures result1 == nil ==> result0 != nil && certSerial(crt) >= 0 && addrBytes(owner) == certOwner(crt)
+//@   ensures result1 == nil ==> result0.SerialNumber != nil && *result0.SerialNumber == certSerial(crt)
+
+//@ func (keeper).CreateCertificate$1
+//@   pure
+
+//@ func (keeper).CreateCertificate
+//@   requires len(addrBytes(owner)) == 20
+//@   modifies ghost KVhas, ghost KVval, ghost G, ghost It_all
+//@   ensures [fail] result != nil ==> KVhas == old(KVhas) && KVval == old(KVval)
+//@   ensures [unique] result == nil ==> !old(KVhas)[k.skey][certKeyOf(upd(upd(zeroCertID(), Owner, owner), Serial, certSerial(crt)))]
+//@   ensures [named] result == nil ==> addrBytes(owner) == certOwner(crt)
+//@   ensures [stored] result == nil ==>
+//@        KVhas == old(KVhas)[k.skey := old(KVhas)[k.skey][certKeyOf(upd(upd(zeroCertID(), Owner, owner), Serial, certSerial(crt))) := true]]
+//@        && KVval == old(KVval)[k.skey := old(KVval)[k.skey][certKeyOf(upd(upd(zeroCertID(), Owner, owner), Serial, certSerial(crt))) :=
+//@               encode(upd(upd(upd(zeroCert(), State, types.CertificateValid), Cert, crt), Pubkey, pubkey))]]
+//@ spec zeroCertID(): types.CertID
+//@ spec zeroCert(): types.Certificate
+
+// revocation: only valid -> revoked, only that record's state, never removed
+//@ func (keeper).RevokeCertificate
+//@   requires id.Serial >= 0
+//@   modifies ghost KVhas, ghost KVval, ghost G
+//@   ensures [fail] result != nil ==> KVhas == old(KVhas) && KVval == old(KVval)
+//@   ensures [revoked] old(KVhas)[k.skey][certKeyOf(id)] && decode(types.Certificate, old(KVval)[k.skey][certKeyOf(id)]).State == types.CertificateRevoked ==> result != nil
+//@   ensures [effect] result == nil ==> decode(types.Certificate, old(KVval)[k.skey][certKeyOf(id)]).State != types.CertificateRevoked
+//@        && KVhas == old(KVhas)[k.skey := old(KVhas)[k.skey][certKeyOf(id) := true]]
+//@        && KVval == old(KVval)[k.skey := old(KVval)[k.skey][certKeyOf(id) := encode(upd(decode(types.Certificate, old(KVval)[k.skey][certKeyOf(id)]), State, types.CertificateRevoked))]]
+
+//@ func (keeper).GetCertificateByID
+//@   requires id.Serial >= 0
+//@   ensures old(KVhas)[k.skey][certKeyOf(id)] && KVval[k.skey][certKeyOf(id)] != "" ==>
+//@        result1 && result0.Certificate == decode(types.Certificate, KVval[k.skey][certKeyOf(id)]) && result0.Serial == bigStr(id.Serial)
+//@   ensures !old(KVhas)[k.skey][certKeyOf(id)] ==> !result1
+
+//@ property C17 := certificateKey#*, certificatePrefix#*, certificateSerialFromKey#*, (keeper).mustUnmarshal#*, filterCertByState#*,
+//@                 (keeper).CreateCertificate#*, (keeper).RevokeCertificate#*, (keeper).GetCertificateByID#*, lemma:certPrefixExact
+
 //@ property C06 := certificateKey#*, certificatePrefix#*, lemma:certPrefixExact
